@@ -12,6 +12,7 @@ import (
 	"reflect"
 	"runtime"
 	"strconv"
+	"strings"
 	"sync"
 	"sync/atomic"
 	"testing"
@@ -498,6 +499,86 @@ func saturatedScratch(rec *hx.Recorder) {
 	rec.NonTrivialEnum(n)
 }
 
+// optionLists: every list of one to three options drawn from {a logger, a nil
+// logger, the standard-error logger, unknown fields, unknown messages} - the
+// same option may occur twice, in any order - on a valid, a cut and a refused
+// input: Decode and DecodeChained return normally. Standard error goes to
+// /dev/null meanwhile.
+func optionLists(rec *hx.Recorder) {
+	valid := (&fitmodel.Stream{HeaderSize: 14, Proto: 0x20, Recs: []fitmodel.Rec{
+		{IsDef: true, Global: 0, Fields: []fitmodel.FieldDef{{Num: 0, Size: 1, Base: 0}}}, {Raw: []byte{4}},
+		{IsDef: true, Local: 1, Global: 20, Fields: []fitmodel.FieldDef{{Num: 253, Size: 4, Base: 0x86}, {Num: 3, Size: 1, Base: 2}, {Num: 200, Size: 1, Base: 2}}},
+		{Local: 1, Raw: []byte{0, 0xCA, 0x9A, 0x3B, 99, 7}},
+		{IsDef: true, Local: 2, Global: 0xFF10, Fields: []fitmodel.FieldDef{{Num: 1, Size: 1, Base: 2}}}, {Local: 2, Raw: []byte{1}},
+	}}).Bytes()
+	inputs := [][]byte{valid, valid[:31], append([]byte{14, 0x50}, valid[2:]...)}
+	atoms := []struct {
+		name string
+		mk   func() fit.DecodeOption
+	}{
+		{"WithLogger(l)", func() fit.DecodeOption { return fit.WithLogger(&ptrLogger{}) }},
+		{"WithLogger(nil)", func() fit.DecodeOption { return fit.WithLogger(nil) }},
+		{"WithStdLogger()", func() fit.DecodeOption { return fit.WithStdLogger() }},
+		{"WithUnknownFields()", func() fit.DecodeOption { return fit.WithUnknownFields() }},
+		{"WithUnknownMessages()", func() fit.DecodeOption { return fit.WithUnknownMessages() }},
+	}
+	saved := os.Stderr
+	if null, err := os.OpenFile(os.DevNull, os.O_WRONLY, 0); err == nil {
+		os.Stderr = null
+		defer func() { os.Stderr = saved; null.Close() }()
+	}
+	n := int64(0)
+	var list []int
+	var walk func(depth int) bool
+	walk = func(depth int) bool {
+		if len(list) > 0 {
+			var names []string
+			for _, a := range list {
+				names = append(names, atoms[a].name)
+			}
+			for _, in := range inputs {
+				for e := 0; e < 2; e++ {
+					var opts []fit.DecodeOption
+					for _, a := range list {
+						opts = append(opts, atoms[a].mk())
+					}
+					var p any
+					func() {
+						defer func() { p = recover() }()
+						if e == 0 {
+							fit.Decode(bytes.NewReader(in), opts...)
+						} else {
+							fit.DecodeChained(bytes.NewReader(in), opts...)
+						}
+					}()
+					n++
+					if p != nil {
+						os.Stderr = saved
+						rec.Fail("option-lists", "", fmt.Sprintf("%s with the options [%s] panicked: %v", entryNames[e], strings.Join(names, ", "), p),
+							byteCase{Data: hex.EncodeToString(in), Chunk: gen.NoFault("whole", 0), Note: "option-lists"})
+						return false
+					}
+				}
+			}
+		}
+		if depth == 3 {
+			return true
+		}
+		for a := range atoms {
+			list = append(list, a)
+			ok := walk(depth + 1)
+			list = list[:len(list)-1]
+			if !ok {
+				return false
+			}
+		}
+		return true
+	}
+	walk(0)
+	rec.Eval("option-lists", n)
+	rec.NonTrivialEnum(n)
+}
+
 // stdLogger: the option that logs to standard error, in a process whose
 // standard error is closed, unwritable, or nil (a daemon, `2>&-`): logging is
 // a side channel, the entry points still return instead of panicking.
@@ -638,6 +719,10 @@ func TestC01(t *testing.T) {
 				}
 				return
 			}
+			if rp.Sub == "option-lists" {
+				optionLists(rec)
+				return
+			}
 			if rp.Sub == "std-logger" {
 				stdLogger(rec)
 				return
@@ -682,6 +767,7 @@ func TestC01(t *testing.T) {
 			chainCarry(rec)
 			saturatedScratch(rec)
 			stdLogger(rec)
+			optionLists(rec)
 		}
 
 		corpus := gen.SmallCorpus(20000)
